@@ -46,12 +46,12 @@ func observe(s *segment[*vTable, any]) segObs {
 
 // ops of the sequential enumeration
 const (
-	opAcquire = iota // a real read: selectSegments(reopen) / incRef
-	opRelease        // DecRef of one held reference
-	opIdle           // the idle reclaimer visits the segment
-	opDelete         // retention selects the segment for deletion
-	opPeek           // read-only stats pass: selectSegments(no reopen) + DecRef
-	opHousekeep      // retention pass that does not delete: segments(false) + DecRef on each
+	opAcquire   = iota // a real read: selectSegments(reopen) / incRef
+	opRelease          // DecRef of one held reference
+	opIdle             // the idle reclaimer visits the segment
+	opDelete           // retention selects the segment for deletion
+	opPeek             // read-only stats pass: selectSegments(no reopen) + DecRef
+	opHousekeep        // retention pass that does not delete: segments(false) + DecRef on each
 	nOps
 )
 
